@@ -324,6 +324,14 @@ func (c *SpecCtx) ident(name string) TT {
 		return TT{T: tTrue, Ty: types.Typ[types.Bool]}
 	case "false":
 		return TT{T: tFalse, Ty: types.Typ[types.Bool]}
+	case "_pos":
+		// byte position of the (single) range-over-string iteration in scope
+		for gname, g := range c.st.ghosts {
+			if strings.HasPrefix(gname, "iter$") && g.Sort == SInt && (c.iterKey == "" || gname == c.iterKey) {
+				return TT{T: g, Ty: types.Typ[types.Int]}
+			}
+		}
+		c.failf("_pos: no string iteration in scope")
 	case "alloc0":
 		return TT{T: c.st.alloc0}
 	case "alloc":
@@ -567,6 +575,9 @@ func (ex *Exec) loadAny(st *State, p *PtrV) Term {
 		case *PtrV:
 			if t := (&SpecCtx{}).ptrTerm(x); !t.IsZero() {
 				return t
+			}
+			if x.Cell == nil && x.Global == nil && !x.IsElem && len(x.Path) == 1 {
+				return ex.fieldAddrTerm(x.Base, x.Root, x.Path[0])
 			}
 			return Term{S: "?ptr", Sort: SInt}
 		}
